@@ -14,6 +14,10 @@ var (
 	MaxHintLength    = MaxTypeLength + MaxVersionLength + 1
 	MinHintLength    = MinTypeLength + util.MinVersionLength + 1
 	regVersion       = regexp.MustCompile(`\-v\d+`)
+	// regFullVersion matches the version printed by Hint.String(),
+	// "-v<major>.<minor>.<patch>". Type can not have ".", so it can not be found
+	// inside of type.
+	regFullVersion = regexp.MustCompile(`\-v\d+\.\d+\.\d+`)
 )
 
 var hintcache util.GCache[string, any]
@@ -41,7 +45,12 @@ func NewHint(t Type, v util.Version) Hint {
 
 // EnsureParseHint tries to parse hint string, but skips to check IsValid().
 func EnsureParseHint(s string) Hint {
-	l := regVersion.FindStringIndex(s)
+	// NOTE type can have "-v<digit>", "abc-v1-v0.0.1"; the full version first.
+	l := regFullVersion.FindStringIndex(s)
+	if len(l) < 1 {
+		l = regVersion.FindStringIndex(s)
+	}
+
 	if len(l) < 1 {
 		return Hint{}
 	}
